@@ -125,6 +125,23 @@ def tail_sensitive_reads(sc):
                 d = abs(pos - ref)
                 if any(abs(d - t) <= 2 for t in (delta, 50, 20, 40)):
                     out.add(r["n"])
+        # "missed terminal exons" (PolyAVerifier.detect_reference_exons_before_polyt / _beyond_polya): the total length L
+        # of the isoform's exons beyond the tail is compared with the distance d from the tail to the next exon,
+        # |L - d| <= delta - one more threshold applied to a tail position
+        for g in sc["genes"]:
+            if g["chr"] != r["c"]:
+                continue
+            for t in g["transcripts"]:
+                ex = t["exons"]
+                for k in range(1, len(ex)):
+                    if tail_l:
+                        L = sum(e[1] - e[0] + 1 for e in ex[:k])
+                        if abs(abs(L - abs(ex[k][0] - b[0][0])) - delta) <= 2:
+                            out.add(r["n"])
+                    if tail_r:
+                        L = sum(e[1] - e[0] + 1 for e in ex[-k:])
+                        if abs(abs(L - abs(ex[-k - 1][1] - b[-1][1])) - delta) <= 2:
+                            out.add(r["n"])
     return out
 
 
